@@ -39,6 +39,7 @@ from vgi_rpc.rpc import (
     _deserialize_params,
     _emit_access_log,
     _flush_collector,
+    _flush_collector_logs,
     _get_auth_and_metadata,
     _log_method_error,
     _read_request,
@@ -296,7 +297,8 @@ def _run_stream_init_sync(
                 outcome.error_type = _log_method_error(protocol_name, method_name, server_id, exc)
                 outcome.error_message = _truncate_error_message(exc)
                 outcome.http_status = HTTPStatus.INTERNAL_SERVER_ERROR
-                raise _RpcHttpError(exc, status_code=outcome.http_status) from exc
+                # Messages the method logged before it raised precede the error.
+                raise _RpcHttpError(exc, status_code=outcome.http_status, preamble=sink.flush_contents) from exc
 
             # Mint the stream's call token once, here.  Everything it carries —
             # the call state, both schemas, the stream id — is fixed for the
@@ -715,6 +717,7 @@ def _run_http_exchange_turn(
         outcome.http_status = HTTPStatus.INTERNAL_SERVER_ERROR
         raise _RpcHttpError(exc, status_code=outcome.http_status) from exc
 
+    out: OutputCollector | None = None
     try:
         # Reconcile the inbound batch's schema against the declared
         # input schema (strict on field set, tolerant of order/type).
@@ -803,7 +806,16 @@ def _run_http_exchange_turn(
         outcome.error_type = _log_method_error(protocol_name, method_name, server_id, exc)
         outcome.error_message = _truncate_error_message(exc)
         outcome.http_status = HTTPStatus.INTERNAL_SERVER_ERROR
-        raise _RpcHttpError(exc, status_code=outcome.http_status, schema=output_schema) from exc
+        # What the failed step logged before it raised still reaches the client.
+        failed_out = out
+        raise _RpcHttpError(
+            exc,
+            status_code=outcome.http_status,
+            schema=output_schema,
+            preamble=(
+                (lambda writer, _schema: _flush_collector_logs(writer, failed_out)) if failed_out is not None else None
+            ),
+        ) from exc
 
 
 def _exchange_error_response(
@@ -1006,6 +1018,9 @@ def _run_http_producer_turn(
             if init_request_metadata is not None
             else _TICK_BATCH
         )
+        # The collector of a process() step whose output has not been written
+        # yet: if the step fails, what it logged still goes out before the error.
+        unflushed: OutputCollector | None = None
         try:
             while True:
                 # Snapshot the budgets remaining at the start of this iteration.
@@ -1030,10 +1045,12 @@ def _run_http_producer_turn(
                     externalization_enabled=externalization_enabled,
                 )
                 current_out[0] = out
+                unflushed = out
                 state.process(first_tick, out, produce_ctx)
                 first_tick = _TICK_BATCH  # only the first process() sees init metadata
                 if not out.finished:
                     out.validate()
+                unflushed = None
                 # Pre-flight the external cap BEFORE flushing — predicting the
                 # upload size from the data batch's buffer size lets us refuse
                 # a violating upload without paying the storage round-trip.
@@ -1126,6 +1143,8 @@ def _run_http_producer_turn(
             # client that only reads the first stream sees a valid header and
             # no error at all.
             _current_response_status.set(HTTPStatus.INTERNAL_SERVER_ERROR)
+            if unflushed is not None:
+                _flush_collector_logs(writer, unflushed)
             _write_error_batch(writer, schema, exc, server_id=server_id)
     # Close the codec BEFORE getvalue(): the compressed frame is only complete
     # once the stream is finalised.
